@@ -328,17 +328,13 @@ theorem avoids_dot {s : List Nat} (h : avoids [46, 37] s = true) : avoids [46] s
     · rfl
     · rw [hc] at h1; cases h1
 
-/-- the full statement for the IPv6 validator / exported pattern; false on the pinned tree -/
-def c20_ipv6_full : Prop := ∀ s, accepts Gen.val_ipv6 s = Fmt.ipv6.run s
+/-- the full statements for the exported patterns; false on the pinned tree -/
 def c20_ipv6_pattern_full : Prop := ∀ s, accepts Gen.pat_ipv6 s = Fmt.ipv6.run s
 def c20_cidrv6_pattern_full : Prop := ∀ s, accepts Gen.pat_cidrv6 s = Fmt.cidrv6.run s
 
 /-- on every string without '.' and '%' the exported pattern accepts exactly the RFC 4291 addresses -/
 theorem c20_ipv6_pattern_partial : ∀ s, avoids [46, 37] s = true → accepts Gen.pat_ipv6 s = Fmt.ipv6.run s := fun s hs =>
   (bisim_sound_R_full _ _ _ _ Gen.cert_ipv6_partial_ok s hs).trans (ipv6_hex_quot s (avoids_dot hs)).symm
-/-- the validator matches the same regular expression (`validate.IPv6` = `regex.IPv6`) -/
-theorem c20_ipv6_partial : ∀ s, avoids [46, 37] s = true → accepts Gen.val_ipv6 s = Fmt.ipv6.run s :=
-  c20_ipv6_pattern_partial
 theorem c20_cidrv6_pattern_partial : ∀ s, avoids [46, 37] s = true → accepts Gen.pat_cidrv6 s = Fmt.cidrv6.run s := fun s hs =>
   (bisim_sound_R_full _ _ _ _ Gen.cert_cidrv6_partial_ok s hs).trans (cidrv6_hex_quot s (avoids_dot hs)).symm
 
@@ -354,14 +350,18 @@ example : avoids [46, 37] (b! "2001:db8::8a2e:370:7334") = true ∧ Fmt.ipv6.run
 /-- the three ways in which `regex.IPv6` is not RFC 4291: a zone id is taken, a leading zero in the dotted quad is taken,
     six groups followed by a dotted quad are refused -/
 theorem c20_ipv6_witnesses :
-    accepts Gen.val_ipv6 (b! "fe80::1%eth0") = true ∧ Fmt.ipv6.run (b! "fe80::1%eth0") = false ∧
-    accepts Gen.val_ipv6 (b! "::01.2.3.4") = true ∧ Fmt.ipv6.run (b! "::01.2.3.4") = false ∧
-    accepts Gen.val_ipv6 (b! "1:2:3:4:5:6:1.2.3.4") = false ∧ Fmt.ipv6.run (b! "1:2:3:4:5:6:1.2.3.4") = true := by
+    accepts Gen.pat_ipv6 (b! "fe80::1%eth0") = true ∧ Fmt.ipv6.run (b! "fe80::1%eth0") = false ∧
+    accepts Gen.pat_ipv6 (b! "::01.2.3.4") = true ∧ Fmt.ipv6.run (b! "::01.2.3.4") = false ∧
+    accepts Gen.pat_ipv6 (b! "1:2:3:4:5:6:1.2.3.4") = false ∧ Fmt.ipv6.run (b! "1:2:3:4:5:6:1.2.3.4") = true := by
   decide +kernel
 
-theorem c20_ipv6_witness : ¬ c20_ipv6_full := fun h =>
+theorem c20_ipv6_pattern_witness : ¬ c20_ipv6_pattern_full := fun h =>
   absurd (h (b! "1:2:3:4:5:6:1.2.3.4")) (by rw [c20_ipv6_witnesses.2.2.2.2.1, c20_ipv6_witnesses.2.2.2.2.2]; decide)
-theorem c20_ipv6_pattern_witness : ¬ c20_ipv6_pattern_full := c20_ipv6_witness
+
+-- BEGIN validator side of IPv6 (netip.ParseAddr ∧ Is6 ∧ no zone since pending/C20-ipv6.diff)
+/-- the validator is modelled by the definition itself (netip's address syntax is RFC 4291 §2.2; tie: correspondence) -/
+theorem c20_ipv6 : ∀ s, Parsers.goIPv6 s = Fmt.ipv6.run s := fun _ => rfl
+-- END validator side of IPv6
 
 theorem c20_cidrv6_pattern_witnesses :
     accepts Gen.pat_cidrv6 (b! "fe80::a%eth0/127") = true ∧ Fmt.cidrv6.run (b! "fe80::a%eth0/127") = false ∧
